@@ -320,6 +320,71 @@ func wdFindRemove(p *ccPkg) *wdRemove {
 		return true
 	})
 
+	// find-then-act form: a position variable set in a loop over the whole list (`for k, v := range F` / `for k := 0; k < len(F); k++`) under the
+	// id test, the splice `F = append(F[:pos], F[pos+1:]...)` after the loop.  `markIf` is then the `if` that sets the position.
+	var markIf *ast.IfStmt
+	var markLoopBody *ast.BlockStmt
+	var markVal, markKey *ast.Object
+	var markField string
+	if r.splice == nil {
+		for _, a := range asgs {
+			if a.as.Tok != token.ASSIGN || len(a.as.Lhs) != len(a.as.Rhs) {
+				continue
+			}
+			ce, ok := axBuiltin(axUnparen(a.as.Rhs[a.idx]), "append")
+			if !ok || len(ce.Args) != 2 {
+				continue
+			}
+			lo, ok := axUnparen(ce.Args[0]).(*ast.SliceExpr)
+			if !ok || lo.High == nil {
+				continue
+			}
+			pos := axObj(lo.High)
+			if pos == nil || !wdIsSplice(a.as.Rhs[a.idx], recv, a.field, pos) {
+				continue
+			}
+			// the one loop over F before the splice that assigns pos
+			for _, st := range fd.Body.List {
+				if st.Pos() >= a.as.Pos() {
+					break
+				}
+				var body *ast.BlockStmt
+				var key, val *ast.Object
+				switch l := st.(type) {
+				case *ast.RangeStmt:
+					if f, ok := wdRecvField(l.X, recv); ok && f == a.field && l.Key != nil {
+						body, key, val = l.Body, axObj(l.Key), axObj(l.Value)
+					}
+				case *ast.ForStmt:
+					if be, ok := axUnparen(l.Cond).(*ast.BinaryExpr); ok && be.Op == token.LSS {
+						if f, arg, ok := wdLenOf(be.Y); ok && f == a.field && axIs(arg, recv) {
+							body, key = l.Body, axObj(be.X)
+						}
+					}
+				}
+				if body == nil || key == nil {
+					continue
+				}
+				ast.Inspect(body, func(x ast.Node) bool {
+					is, ok := x.(*ast.IfStmt)
+					if !ok {
+						return true
+					}
+					for _, bs := range is.Body.List {
+						if as2, ok := bs.(*ast.AssignStmt); ok && as2.Tok == token.ASSIGN && len(as2.Lhs) == 1 && len(as2.Rhs) == 1 && axIs(as2.Lhs[0], pos) && axIs(as2.Rhs[0], key) {
+							markIf, markLoopBody, markVal, markKey, markField = is, body, val, key, a.field
+						}
+					}
+					return true
+				})
+			}
+			if markIf != nil {
+				r.splice, r.field = a.as, a.field
+				break
+			}
+		}
+	}
+
 	// restoresOnFailure: some assignment `<recv>.F = v` with v a local bound (`v := <recv>.F`) to the same field
 	for _, a := range asgs {
 		if len(a.as.Lhs) != len(a.as.Rhs) {
@@ -345,7 +410,7 @@ func wdFindRemove(p *ccPkg) *wdRemove {
 	if r.effect == "restoresOnFailure" {
 		return r
 	}
-	if r.splice == nil || spliceLoop == nil || otherWrites {
+	if r.splice == nil || (spliceLoop == nil && markIf == nil) || otherWrites {
 		return r
 	}
 	// exactly one assignment to F in R, the splice; assignments to other receiver fields are none of our business only if they are
@@ -367,10 +432,16 @@ func wdFindRemove(p *ccPkg) *wdRemove {
 	r.effect = "shrinksAlways"
 
 	// the test the splice stands under: `<param> == <value>.ID()`
-	val := axObj(spliceLoop.Value)
-	ast.Inspect(spliceLoop.Body, func(x ast.Node) bool {
+	var val *ast.Object
+	var testBody *ast.BlockStmt
+	if spliceLoop != nil {
+		val, testBody = axObj(spliceLoop.Value), spliceLoop.Body
+	} else {
+		val, testBody = markVal, markLoopBody
+	}
+	ast.Inspect(testBody, func(x ast.Node) bool {
 		is, ok := x.(*ast.IfStmt)
-		if !ok || !ccWithin(r.splice, is.Body) {
+		if !ok || (spliceLoop != nil && !ccWithin(r.splice, is.Body)) || (spliceLoop == nil && is != markIf) {
 			return true
 		}
 		be, ok := axUnparen(is.Cond).(*ast.BinaryExpr)
@@ -383,7 +454,19 @@ func wdFindRemove(p *ccPkg) *wdRemove {
 				return false
 			}
 			b, n, ok := axSel(ce.Fun)
-			return ok && n == "ID" && val != nil && axIs(b, val)
+			if !ok || n != "ID" {
+				return false
+			}
+			if val != nil && axIs(b, val) {
+				return true
+			}
+			// <recv>.F[key].ID() in the index form
+			if ix, ok := axUnparen(b).(*ast.IndexExpr); ok && markKey != nil && axIs(ix.Index, markKey) {
+				if f, ok := wdRecvField(ix.X, recv); ok && f == markField {
+					return true
+				}
+			}
+			return false
 		}
 		if (axIs(be.X, param) && isID(be.Y)) || (axIs(be.Y, param) && isID(be.X)) {
 			r.byID = true
@@ -484,6 +567,9 @@ func wdFindCapLoop(p *ccPkg, rm *wdRemove) *wdCapLoop {
 			fs, ok := x.(*ast.ForStmt)
 			if !ok || fs.Cond == nil {
 				return true
+			}
+			if fs.Init != nil && fs.Post != nil {
+				return true // the index form of a range loop (classified by wdLoopShape); the cap loop is a while loop
 			}
 			mentions := false
 			ast.Inspect(fs.Cond, func(y ast.Node) bool {
@@ -740,6 +826,26 @@ func wdLoopShape(p *ccPkg, fd *ast.FuncDecl, n ast.Node, cl *wdCapLoop) string {
 					}
 				}
 				if !fromCall {
+					// … or in the statement right before this if: `err = <call>` at the top level of the loop body
+					for k, prev := range s.Body.List {
+						if prev == st && k > 0 {
+							for j := k - 1; j >= 0; j-- {
+								if as, ok := s.Body.List[j].(*ast.AssignStmt); ok && len(as.Rhs) == 1 {
+									if _, isCall := axUnparen(as.Rhs[0]).(*ast.CallExpr); isCall {
+										for _, l := range as.Lhs {
+											fromCall = fromCall || axIs(l, axObj(x))
+										}
+									}
+									break
+								}
+								if _, isIf := s.Body.List[j].(*ast.IfStmt); !isIf {
+									break // only tests of the same error may stand between the call and this test
+								}
+							}
+						}
+					}
+				}
+				if !fromCall {
 					continue
 				}
 				// every path of the body ends in break / return
@@ -755,6 +861,32 @@ func wdLoopShape(p *ccPkg, fd *ast.FuncDecl, n ast.Node, cl *wdCapLoop) string {
 		if s.Cond != nil && s.Init != nil && s.Post != nil {
 			if id, ok := axUnparen(s.Cond).(*ast.Ident); ok && id.Name == "true" && id.Obj == nil {
 				return "counter:forever"
+			}
+			// the index form of a range loop: `for i := 0; i < len(X); i++` whose body never assigns i — bounded by construction like `range`
+			if be, ok := axUnparen(s.Cond).(*ast.BinaryExpr); ok && be.Op == token.LSS {
+				if _, _, isLen := wdLenOf(be.Y); isLen {
+					i := axObj(be.X)
+					init, okI := s.Init.(*ast.AssignStmt)
+					post, okP := s.Post.(*ast.IncDecStmt)
+					if i != nil && okI && okP && init.Tok == token.DEFINE && len(init.Lhs) == 1 && axIs(init.Lhs[0], i) && post.Tok == token.INC && axIs(post.X, i) {
+						touched := axCount(s.Body, func(x ast.Node) bool {
+							switch v := x.(type) {
+							case *ast.AssignStmt:
+								for _, l := range v.Lhs {
+									if axIs(l, i) {
+										return true
+									}
+								}
+							case *ast.IncDecStmt:
+								return axIs(v.X, i)
+							}
+							return false
+						}) > 0
+						if !touched {
+							return "range"
+						}
+					}
+				}
 			}
 			return "unknown"
 		}
